@@ -17,7 +17,7 @@ Init == l = 1 /\ nbad = 0 /\ nself = 0 /\ cur = << >> /\ built = None /\ deser =
 IsEvent(k) == l <= Len(Rec) /\ Rec[l].ev = k /\ l' = l + 1
 
 CaseEv == /\ IsEvent("case") /\ cur' = Rec[l] /\ built' = None /\ deser' = None /\ UNCHANGED <<nbad, nself>>
-Skip == /\ (IsEvent("ingest") \/ IsEvent("render") \/ IsEvent("compile") \/ IsEvent("bounds") \/ IsEvent("probe_na")
+Skip == /\ (IsEvent("ingest") \/ IsEvent("render") \/ IsEvent("bounds") \/ IsEvent("probe_na")
             \/ IsEvent("intro") \/ IsEvent("bounds_decl"))
         /\ UNCHANGED <<nbad, nself, cur, built, deser>>
 
@@ -55,11 +55,23 @@ Deser == /\ IsEvent("deser")
          /\ deser' = IF Rec[l].ok THEN Rec[l].out ELSE None
          /\ UNCHANGED <<nself, cur, built>>
 
+(* the generated module (struct, builder, conversions) of a case does not compile: no builder
+   of that struct can be converted at all *)
+Compile == /\ IsEvent("compile")
+           /\ LET e == Rec[l] IN
+                IF e.res # "ok" /\ e.part \in {"g", "types"}
+                THEN /\ nbad' = nbad + 1
+                     /\ PrintT(<<"BAD", ToJson([l |-> l, case |-> e.case, probe |-> 0, prop |-> "C18",
+                                                 diag |-> "C18/GeneratedBuilderDoesNotCompile", id |-> cur.id,
+                                                 hist |-> cur.hist, known |-> {}, extra |-> [codes |-> e.codes, msg |-> e.msg]])>>)
+                ELSE nbad' = nbad
+           /\ UNCHANGED <<nself, cur, built, deser>>
+
 Panic == /\ IsEvent("probe_panic") /\ nbad' = nbad + 1 /\ Bad(Rec[l], "C18/BuilderPanics", << >>)
          /\ UNCHANGED <<nself, cur, built, deser>>
 End == /\ IsEvent("endcase") /\ UNCHANGED <<nbad, nself, cur, built, deser>>
 
-Next == CaseEv \/ Skip \/ Builder \/ Deser \/ Panic \/ End
+Next == CaseEv \/ Skip \/ Compile \/ Builder \/ Deser \/ Panic \/ End
 Spec == Init /\ [][Next]_vars
 Finished ==
     /\ PrintT(<<"TRACE-STATS", ToJson([lines |-> Len(Rec), diameter |-> TLCGet("stats").diameter,
